@@ -53,6 +53,8 @@ func (tr *FnTrans) callWith0(c *ssa.CallCommon, site ssa.Instruction, pos token.
 		tr.atCall(callee.Name())
 	} else if prm, ok := c.Value.(*ssa.Parameter); ok {
 		tr.atCall(prm.Name()) // call of a function-typed parameter
+	} else if b, ok := c.Value.(*ssa.Builtin); ok {
+		tr.atCall(b.Name())
 	}
 	if b, ok := c.Value.(*ssa.Builtin); ok && !c.IsInvoke() {
 		return tr.builtin(b, c, args, pos)
@@ -259,6 +261,9 @@ func (tr *FnTrans) applyContractEnv(fc *FuncContract, name string, sig *types.Si
 	allocBefore := vc.hget(pre, compAlloc)
 	ec := &evalCtx{vc: vc, env: env, heap: pre, old: pre, pkg: cpkg, entryAlloc: allocBefore}
 	for _, c := range fc.Requires {
+		if tr.partial {
+			break // partial contract: callee preconditions are not checked (listed assumption)
+		}
 		tr.vc.oblig(fmt.Sprintf("%s#pre:%s.%s:%d", tr.name, name, c.Label, ord), "pre",
 			sImp(tr.curReach, ec.evalBool(c.E)), fmt.Sprintf("precondition of %s at %s: %s", name, tr.posStr(pos), c.Text))
 	}
@@ -271,7 +276,7 @@ func (tr *FnTrans) applyContractEnv(fc *FuncContract, name string, sig *types.Si
 		name string
 	}
 	var cbs []cbInfo
-	if len(fc.Calls) > 0 && tr.curCall != nil && !tr.scan {
+	if len(fc.Calls) > 0 && tr.curCall != nil {
 		off := 0
 		if hasRecv {
 			off = 1
@@ -351,31 +356,25 @@ func (tr *FnTrans) applyContractEnv(fc *FuncContract, name string, sig *types.Si
 		tr.havocAll()
 	} else if fc.ModHeap {
 		// everything program-visible is havoced, ghost state only as listed
-		ghosts := map[string]string{}
-		for c := range vc.compSort {
-			if strings.HasPrefix(c, "G$") {
-				ghosts[c] = vc.hget(tr.cur, c)
-			}
-		}
 		var targets []modTarget
 		for _, m := range fc.Modifies {
 			targets = append(targets, tr.modTargets(ec, m)...)
 		}
+		excepted := map[string]bool{}
 		for _, m := range fc.ModExcept {
 			for _, t := range tr.modTargets(ec, m) {
-				ghosts[t.comp] = vc.hget(tr.cur, t.comp) // excepted components keep their version
+				excepted[t.comp] = true // excepted components keep their version
 			}
 		}
-		tr.havocAll()
-		for c, v := range ghosts {
-			tr.cur.m[c] = v
-		}
 		var gts []modTarget
+		gmod := map[string]bool{}
 		for _, t := range targets {
 			if strings.HasPrefix(t.comp, "G$") {
 				gts = append(gts, t)
+				gmod[t.comp] = true
 			}
 		}
+		tr.havocHeapKeeping(excepted, gmod)
 		tr.applyMods(gts)
 	} else {
 		var targets []modTarget
@@ -391,30 +390,24 @@ func (tr *FnTrans) applyContractEnv(fc *FuncContract, name string, sig *types.Si
 		if cb.kfc.ModAll {
 			tr.havocAll()
 		} else if cb.kfc.ModHeap {
-			ghosts := map[string]string{}
-			for c := range vc.compSort {
-				if strings.HasPrefix(c, "G$") {
-					ghosts[c] = vc.hget(tr.cur, c)
-				}
-			}
 			xec := &evalCtx{vc: vc, env: cb.kenv, heap: pre, old: pre, pkg: tr.pkg, entryAlloc: allocBefore}
+			excepted := map[string]bool{}
 			for _, m := range cb.kfc.ModExcept {
 				for _, t := range tr.modTargets(xec, m) {
-					ghosts[t.comp] = vc.hget(tr.cur, t.comp)
+					excepted[t.comp] = true
 				}
 			}
 			var gmods []modTarget
+			gmod := map[string]bool{}
 			for _, m := range cb.kfc.Modifies {
 				for _, t := range tr.modTargets(xec, m) {
 					if strings.HasPrefix(t.comp, "G$") {
 						gmods = append(gmods, t)
+						gmod[t.comp] = true
 					}
 				}
 			}
-			tr.havocAll()
-			for c, v := range ghosts {
-				tr.cur.m[c] = v
-			}
+			tr.havocHeapKeeping(excepted, gmod)
 			tr.applyMods(gmods)
 		} else {
 			kec := &evalCtx{vc: vc, env: cb.kenv, heap: pre, old: pre, pkg: tr.pkg, entryAlloc: allocBefore}
